@@ -537,6 +537,17 @@ def alias_cycle_definitions(v):
 
 
 @_pred
+def absent_member_default_no_default_impl(v):
+    """KF-C01-4 (= KF-C06-2 / KF-C18-2 in its uncompilable form): a member absent from a rendered default value is
+    written `Default::default()` although its type (Ipv4Addr, a tuple of generated types, an enum) has no Default."""
+    import re as _re
+    first = ((v.get("detail") or {}).get("first") or "")
+    codes = set(v.get("codes") or [])
+    return codes <= {"E0277"} and "Default::default()" in first and \
+        _re.search(r"the trait bound `[^`]*: Default` is not satisfied|the trait `Default` is not implemented", first) is not None
+
+
+@_pred
 def self_alias_definition(v):
     """KF-C01-2: a definition that is nothing but a $ref to itself; the only error codes are E0119 (+ consequences)."""
     if "E0119" not in (v.get("codes") or []):
